@@ -29,6 +29,7 @@ import shutil
 import subprocess
 import sys
 import tempfile
+import threading
 import time
 from concurrent.futures import ThreadPoolExecutor
 
@@ -148,8 +149,17 @@ def parse_output(text, nfun):
     return res, done
 
 
+_SLOTS = threading.BoundedSemaphore(PAR)     # at most PAR compiler / program processes at any time
+_UID_LOCK = threading.Lock()
+
+
 def build_and_run(src_text, tc, workdir, name, salt, timeout=1800):
     """Compile and run one TU.  -> dict(compiled, cerr, rc, out, secs)"""
+    with _SLOTS:
+        return _build_and_run(src_text, tc, workdir, name, salt, timeout)
+
+
+def _build_and_run(src_text, tc, workdir, name, salt, timeout):
     src = os.path.join(workdir, name + ".cpp")
     exe = os.path.join(workdir, name + ".bin")
     with open(src, "w") as f:
@@ -299,8 +309,9 @@ class Engine:
             list(ex.map(one, enumerate(todo)))
 
     def next_uid(self):
-        self.uid += 1
-        return self.uid
+        with _UID_LOCK:
+            self.uid += 1
+            return self.uid
 
     def verdict(self, s, tc):
         return self.cache.get((G.canon(s), tc.key()))
